@@ -135,7 +135,7 @@ func ruleT8(c *Ctx) {
 			checkConstField(c, info, l, "generateHeader", "TimeDateStamp", 0)
 			checkConstField(c, info, l, "generateHeader", "SizeOfOptionalHeader", 0)
 			for _, fld := range []string{"NumberOfSections", "PointerToSymbolTable", "NumberOfSymbols"} {
-				_, isParam := paramIndexOf(info, fd, field(l, fld))
+				_, isParam := paramRefOf(info, fd, field(l, fld))
 				c.check(isParam, "T8", "generateHeader|"+fld, c.L.Pos(l.Pos()), fld+" must be the value computed by the writer (a parameter), not a constant")
 			}
 		}
@@ -152,7 +152,7 @@ func ruleT8(c *Ctx) {
 		c.check(len(names) == 3 && names[0] == ".text" && names[1] == ".data" && names[2] == ".bss", "T8", "generateSectionHeaders|names", c.L.Pos(fd.Pos()), fmt.Sprintf("section headers must be .text, .data, .bss in this order; found %q", names))
 		if len(lits) >= 1 {
 			for _, fld := range []string{"SizeOfRawData", "PointerToRawData"} {
-				_, isParam := paramIndexOf(info, fd, field(lits[0], fld))
+				_, isParam := paramRefOf(info, fd, field(lits[0], fld))
 				c.check(isParam, "T8", "generateSectionHeaders|.text "+fld, c.L.Pos(lits[0].Pos()), ".text "+fld+" must be the value measured by the writer")
 			}
 			checkConstField(c, info, lits[0], "generateSectionHeaders[.text]", "NumberOfRelocations", 0)
@@ -425,6 +425,70 @@ func checkConstField(c *Ctx, info *types.Info, l *ast.CompositeLit, where, fld s
 	c.check(ok && v == want, "T8", where+"|"+fld, c.L.Pos(e.Pos()), fmt.Sprintf("%s = %#x, must be %#x", fld, v, want))
 }
 
+// paramRef: a parameter of a function, or one field of a struct-typed parameter (layout.textDataOffset).
+type paramRef struct {
+	idx   int
+	field string
+}
+
+// paramRefOf: e is a parameter of fd, or a field selected from one.
+func paramRefOf(info *types.Info, fd *ast.FuncDecl, e ast.Expr) (paramRef, bool) {
+	if i, ok := paramIndexOf(info, fd, e); ok {
+		return paramRef{i, ""}, true
+	}
+	if sel, ok := ast.Unparen(e).(*ast.SelectorExpr); ok {
+		if i, ok := paramIndexOf(info, fd, sel.X); ok {
+			return paramRef{i, sel.Sel.Name}, true
+		}
+	}
+	return paramRef{}, false
+}
+
+// argValue: the SSA value a call passes for ref — the argument itself (methods carry their
+// receiver first), or, for a field of a struct argument that the caller builds in a local, the
+// value stored into that field.
+func argValue(call *ssa.Call, ref paramRef) ssa.Value {
+	callee := call.Call.StaticCallee()
+	if callee == nil {
+		return nil
+	}
+	off := 0
+	if callee.Signature.Recv() != nil {
+		off = 1
+	}
+	if ref.idx+off >= len(call.Call.Args) {
+		return nil
+	}
+	a := call.Call.Args[ref.idx+off]
+	if ref.field == "" {
+		return a
+	}
+	ld, ok := a.(*ssa.UnOp)
+	if !ok || ld.Op != token.MUL {
+		return nil
+	}
+	al, ok := ld.X.(*ssa.Alloc)
+	if !ok || al.Referrers() == nil {
+		return nil
+	}
+	var val ssa.Value
+	for _, r := range *al.Referrers() {
+		fa, ok := r.(*ssa.FieldAddr)
+		if !ok || fieldName(fa) != ref.field || fa.Referrers() == nil {
+			continue
+		}
+		for _, r2 := range *fa.Referrers() {
+			if st, ok := r2.(*ssa.Store); ok && st.Addr == ssa.Value(fa) {
+				if val != nil {
+					return nil // assigned more than once: not modelled
+				}
+				val = st.Val
+			}
+		}
+	}
+	return val
+}
+
 // paramIndexOf: if e is an identifier naming a parameter of fd, returns its index.
 func paramIndexOf(info *types.Info, fd *ast.FuncDecl, e ast.Expr) (int, bool) {
 	id, ok := e.(*ast.Ident)
@@ -669,9 +733,36 @@ func ruleP4(c *Ctx) {
 		}
 		return "<none>"
 	}
-	feeds := func(v ssa.Value, call *ssa.Call, argIdx int) bool {
-		a := call.Call.Args[argIdx]
-		for i := 0; i < 4; i++ {
+	feedsVal := func(v ssa.Value, a ssa.Value) bool {
+		if a == nil {
+			return false
+		}
+		for i := 0; i < 6; i++ {
+			// a field of a local struct that is assigned exactly once: the value assigned
+			if ld, ok := a.(*ssa.UnOp); ok && ld.Op == token.MUL {
+				if fa, ok := ld.X.(*ssa.FieldAddr); ok {
+					if al, ok := fa.X.(*ssa.Alloc); ok && al.Referrers() != nil {
+						var val ssa.Value
+						n := 0
+						for _, r := range *al.Referrers() {
+							fa2, ok := r.(*ssa.FieldAddr)
+							if !ok || fa2.Field != fa.Field || fa2.Referrers() == nil {
+								continue
+							}
+							for _, r2 := range *fa2.Referrers() {
+								if st, ok := r2.(*ssa.Store); ok && st.Addr == ssa.Value(fa2) {
+									val = st.Val
+									n++
+								}
+							}
+						}
+						if n == 1 {
+							a = val
+							continue
+						}
+					}
+				}
+			}
 			if a == v {
 				return true
 			}
@@ -700,10 +791,10 @@ func ruleP4(c *Ctx) {
 		c.anchorMissing("P4", "header literals")
 		return
 	}
-	symOffIdx, ok1 := paramIndexOf(info, hdrFd, field(hl[0], "PointerToSymbolTable"))
-	nsymIdx, ok2 := paramIndexOf(info, hdrFd, field(hl[0], "NumberOfSymbols"))
-	textOffIdx, ok3 := paramIndexOf(info, secFd, field(sl[0], "PointerToRawData"))
-	textSzIdx, ok4 := paramIndexOf(info, secFd, field(sl[0], "SizeOfRawData"))
+	symOffRef, ok1 := paramRefOf(info, hdrFd, field(hl[0], "PointerToSymbolTable"))
+	nsymRef, ok2 := paramRefOf(info, hdrFd, field(hl[0], "NumberOfSymbols"))
+	textOffRef, ok3 := paramRefOf(info, secFd, field(sl[0], "PointerToRawData"))
+	textSzRef, ok4 := paramRefOf(info, secFd, field(sl[0], "SizeOfRawData"))
 	if !(ok1 && ok2 && ok3 && ok4) {
 		c.fail("P4", "Write|header fields from parameters", "", "undecided: header fields are not plain parameters")
 		return
@@ -729,11 +820,11 @@ func ruleP4(c *Ctx) {
 		if e.kind != "len" {
 			continue
 		}
-		if feeds(e.val, hdrCall, symOffIdx+1) {
+		if feedsVal(e.val, argValue(hdrCall, symOffRef)) {
 			symOK = nextWrite(i) == "symtab"
 			c.check(symOK, "P4", "Write|PointerToSymbolTable", c.L.Pos(instrPos(e.in)), "PointerToSymbolTable must be the buffer length captured immediately before the symbol table is appended; next append is "+nextWrite(i))
 		}
-		if feeds(e.val, secCall, textOffIdx+1) {
+		if feedsVal(e.val, argValue(secCall, textOffRef)) {
 			textOK = nextWrite(i) == "machinecode"
 			c.check(textOK, "P4", "Write|.text PointerToRawData", c.L.Pos(instrPos(e.in)), ".text PointerToRawData must be the buffer length captured immediately before the machine code is appended; next append is "+nextWrite(i))
 		}
@@ -745,7 +836,7 @@ func ruleP4(c *Ctx) {
 		c.check(false, "P4", "Write|.text PointerToRawData source", c.L.Pos(f.Pos()), ".text PointerToRawData is not fed by a buffer-length capture placed directly before the code append")
 	}
 	// .text SizeOfRawData = len(ctx.MachineCode)
-	szArg := secCall.Call.Args[textSzIdx+1]
+	szArg := argValue(secCall, textSzRef)
 	szOK := false
 	if cv, ok := szArg.(*ssa.Convert); ok {
 		if call, ok := cv.X.(*ssa.Call); ok {
@@ -764,7 +855,7 @@ func ruleP4(c *Ctx) {
 	}
 	c.check(hdrLast, "P4", "Write|headers after data", c.L.Pos(instrPos(hdrCall)), "header and section headers must be generated after every append so that offsets and counts are final")
 	// NumberOfSymbols: counter incremented by 1 per main record and by the aux count per aux record
-	nsArg := hdrCall.Call.Args[nsymIdx+1]
+	nsArg := argValue(hdrCall, nsymRef)
 	c.check(symbolCounterOK(nsArg), "P4", "Write|NumberOfSymbols counter", c.L.Pos(instrPos(hdrCall)), "NumberOfSymbols must count 1 per main record plus NumberOfAuxSymbols per entry that has an aux record")
 	// string table length = content + 4
 	c.check(strSizeOK(f), "P4", "Write|string table length", c.L.Pos(f.Pos()), "the string-table length field must be len(content)+4 (it counts itself)")
